@@ -17,6 +17,7 @@ import (
 	"strings"
 	"sync"
 	"sync/atomic"
+	"time"
 
 	"verif/mc"
 
@@ -1049,7 +1050,7 @@ func main() {
 			return e.checkStream(t.Stream)
 		},
 	}, mc.Harness{
-		Name: "cvm-large",
+		Name: "cvm-large", HangLimit: 20 * time.Minute,
 		Explore: func(r *mc.Run) {
 			var cases []largeCase
 			for _, n := range mc.Pick(r, []int{2, 3, 4, 5, 8, 16, 17, 63, 64, 65, 127, 128, 129, 130, 131, 256, 257, 1000}, []int{2, 3, 4, 5, 8, 16, 17, 63, 64, 65, 127, 128, 129, 130, 131, 256, 257, 1000, 4096, 4097, 20000}) {
@@ -1060,7 +1061,7 @@ func main() {
 			}
 			mc.ParallelFor(len(cases), r.Workers, func(i int) {
 				lc := cases[i]
-				if f := mc.GuardT("cvm-large", lc, func() *mc.Failure { return checkLarge(lc) }); f != nil {
+				if f := mc.GuardTL("cvm-large", lc, 20*time.Minute, func() *mc.Failure { return checkLarge(lc) }); f != nil {
 					r.Violation(mc.Case{Harness: "cvm-large", Trace: mc.J(lc), Msg: f.Msg, Step: f.Step})
 				}
 			})
